@@ -355,11 +355,21 @@ static void mem_case(const Claim& c, uint64_t n, int trailing, int src) {
     try {
         std::istringstream is(text);
         json j;
-        if (c.fmt == "cbor") j = src == 0 ? jsoncons::cbor::decode_cbor<json>(b) : (src == 1 ? jsoncons::cbor::decode_cbor<json>(is) : jsoncons::cbor::decode_cbor<json>(b.begin(), b.end()));
+        if (src >= 3) {
+            // typed entry points: the element count announced by the input must not size the container either
+            #define TYPED(NS, DEC) { if (src == 3) { auto r = jsoncons::NS::DEC<std::vector<double>>(b); produced = 8 * (long long)(r ? r->size() : 0); } \
+                else if (src == 4) { auto r = jsoncons::NS::DEC<std::vector<uint8_t>>(b); produced = (long long)(r ? r->size() : 0); } \
+                else if (src == 5) { auto r = jsoncons::NS::DEC<std::vector<std::string>>(b); produced = 32 * (long long)(r ? r->size() : 0); } \
+                else { auto r = jsoncons::NS::DEC<std::map<std::string, int64_t>>(b); produced = 48 * (long long)(r ? r->size() : 0); } }
+            if (c.fmt == "cbor") TYPED(cbor, try_decode_cbor) else if (c.fmt == "msgpack") TYPED(msgpack, try_decode_msgpack) else if (c.fmt == "ubjson") TYPED(ubjson, try_decode_ubjson) else TYPED(bson, try_decode_bson)
+            #undef TYPED
+            g_meter = false; ok = true;
+        }
+        else if (c.fmt == "cbor") j = src == 0 ? jsoncons::cbor::decode_cbor<json>(b) : (src == 1 ? jsoncons::cbor::decode_cbor<json>(is) : jsoncons::cbor::decode_cbor<json>(b.begin(), b.end()));
         else if (c.fmt == "msgpack") j = src == 0 ? jsoncons::msgpack::decode_msgpack<json>(b) : (src == 1 ? jsoncons::msgpack::decode_msgpack<json>(is) : jsoncons::msgpack::decode_msgpack<json>(b.begin(), b.end()));
         else if (c.fmt == "ubjson") { jsoncons::ubjson::ubjson_options o; o.max_items(SIZE_MAX); j = src == 0 ? jsoncons::ubjson::decode_ubjson<json>(b, o) : (src == 1 ? jsoncons::ubjson::decode_ubjson<json>(is, o) : jsoncons::ubjson::decode_ubjson<json>(b.begin(), b.end(), o)); }
-        else j = src == 0 ? jsoncons::bson::decode_bson<json>(b) : (src == 1 ? jsoncons::bson::decode_bson<json>(is) : jsoncons::bson::decode_bson<json>(b.begin(), b.end()));
-        ok = true; g_meter = false; std::string s; j.dump(s); produced = (long long)s.size();
+        else if (src < 3) j = src == 0 ? jsoncons::bson::decode_bson<json>(b) : (src == 1 ? jsoncons::bson::decode_bson<json>(is) : jsoncons::bson::decode_bson<json>(b.begin(), b.end()));
+        if (src < 3) { ok = true; g_meter = false; std::string s; j.dump(s); produced = (long long)s.size(); }
     } catch (const std::bad_alloc&) { err = "bad_alloc"; }
     catch (const std::length_error& e) { err = std::string("length_error:") + e.what(); }
     catch (const std::exception& e) { err = e.what(); }
@@ -384,7 +394,7 @@ static void run_mem(bool thorough, int slice, int nslices) {
     for (auto& c : cl) for (uint64_t n : ns) {
         if (c.maxbits < 64 && n >= (1ULL << c.maxbits)) continue;
         if ((int)(idx++ % nslices) != slice) continue;
-        for (int tr : {0, 1, 16}) for (int src = 0; src < 3; ++src) {
+        for (int tr : {0, 1, 16}) for (int src = 0; src < 7; ++src) {
             // each case in a forked child with an address-space cap, so that a runaway allocation is a report, not a dead slice
             mem_case(c, n, tr, src);
         }
